@@ -416,6 +416,26 @@ func (cs *Contracts) parseFile(path, src string) error {
 				ae.Cond, ae.Body = b.X, b.Y
 			}
 			cur.AtEvals = append(cur.AtEvals, ae)
+		case "lemma":
+			cl, err := parseClause(rest)
+			if err != nil {
+				return fmt.Errorf("%s:%d: %v", path, ln, err)
+			}
+			cur.Lemmas = append(cur.Lemmas, &Lemma{Label: cl.Label, Expr: cl.Expr, Text: cl.Text})
+		case "lemma-each":
+			// lemma-each <var> <lo> <hi> <label>: <expr>
+			f := strings.Fields(rest)
+			if len(f) < 5 {
+				return fmt.Errorf("%s:%d: lemma-each <var> <lo> <hi> <label>: <expr>", path, ln)
+			}
+			var lo, hi int
+			fmt.Sscan(f[1], &lo)
+			fmt.Sscan(f[2], &hi)
+			cl, err := parseClause(strings.TrimSpace(rest[strings.Index(rest, f[3]):]))
+			if err != nil {
+				return fmt.Errorf("%s:%d: %v", path, ln, err)
+			}
+			cur.Lemmas = append(cur.Lemmas, &Lemma{Label: cl.Label, Var: f[0], Lo: lo, Hi: hi, Expr: cl.Expr, Text: cl.Text})
 		case "property":
 			cur.Props = append(cur.Props, strings.Fields(rest)...)
 		case "exact":
